@@ -326,3 +326,31 @@ def trivial_call(ctx: Context, fn: FunctionInfo, call: ast.AST) -> bool:
                     for x in ast.walk(s.value if s.value is not None else s))
                 for s in body)
     return False
+
+
+def reaches(ctx: Context, fn: FunctionInfo, call: ast.AST, target_fq: str) -> bool:
+    """Does this call (through resolved internal callees) reach target_fq?"""
+    if not isinstance(call, ast.Call):
+        return False
+    for t in ctx.internal_targets(fn, call):
+        if t.fq == target_fq or target_fq in ctx.cg.reachable([t.fq]):
+            return True
+    return False
+
+
+def helper_assigns(ctx: Context, fn: FunctionInfo, call: ast.AST,
+                   pred, depth: int = 2) -> bool:
+    """Does a helper reached by this call contain a statement satisfying
+    pred(stmt)? (summary, depth-bounded)"""
+    if not isinstance(call, ast.Call) or depth <= 0:
+        return False
+    for t in ctx.internal_targets(fn, call):
+        if isinstance(t.node, ast.Lambda):
+            continue
+        for n in t.body_nodes():
+            if isinstance(n, ast.stmt) and pred(n):
+                return True
+            if isinstance(n, ast.Call) and helper_assigns(ctx, t, n, pred,
+                                                          depth - 1):
+                return True
+    return False
